@@ -361,10 +361,13 @@ impl<'a, R: Resolve, U: Updater> Cloner for Importer<'a, R, U> {
             return Ok(Ref::new(new_ref));
         }
         let obj = self.resolver.get(old)?;
-        let clone = obj.deep_clone(self)?;
 
-        let r = self.updater.create(clone)?;
-        self.map.insert(old.get_inner(), r.get_ref().get_inner());
+        // reserve the new reference before descending: the object may (indirectly) refer to itself
+        let promise = self.updater.promise::<T>();
+        self.map.insert(old.get_inner(), promise.get_inner());
+
+        let clone = obj.deep_clone(self)?;
+        let r = self.updater.fulfill(promise, clone)?;
 
         Ok(r.get_ref())
     }
